@@ -189,9 +189,11 @@ def selectExn (es : List Exn) : Option Exn :=
     | some e => some e
     | none => es.getLast?
 
-/-- where the call under test sits: in the test method, or in `setUp` (after the upcall) — then the existing
-details, the cleanups and `after` belong to `setUp` too, and the test method itself does nothing -/
-inductive Place | body | setUp
+/-- where the call under test sits: in the test method, or in the test's own `setUp` — after its upcall to the base
+`setUp`, or before it (`setUpEarly`: the stage does its own work first and upcalls last) — then the existing details,
+the cleanups and `after` belong to `setUp` too, and the test method itself does nothing.  The position relative to the
+upcall makes no difference to what the run has to report (the base `setUp` only records that it was called). -/
+inductive Place | body | setUp | setUpEarly
 deriving DecidableEq, Repr
 
 structure AssertIn where
@@ -221,7 +223,7 @@ def somesExn : List (Option Exn) → List Exn
 /-- `setUp` raised (the call sits there and raised, or what `setUp` went on to do raised): `_run_core` then runs
 neither the test method nor `tearDown`, only the cleanups -/
 def setUpGaveUp (callRaised : Bool) (i : AssertIn) : Bool :=
-  i.place == .setUp && (callRaised || i.after != .ret)
+  i.place != .body && (callRaised || i.after != .ret)
 
 /-- the exceptions of the run in the order `_run_core` collects them: the stage with the call (body or setUp),
 tearDown (unless setUp gave up), cleanups (LIFO) and — last, whenever `force_failure` is set, also when setUp gave
